@@ -52,6 +52,9 @@ type G struct {
 	// measured scheduler-induced lateness).
 	ParkedAt time.Time
 	Steps    int
+	// unchecked > 0: the goroutine is inside a monitor's read of library state
+	// (Unchecked): no scheduling points, no lockset bookkeeping
+	unchecked int
 	// locks held (R12, lockset discipline for maps)
 	heldW map[any]struct{}
 	heldR map[any]int
@@ -151,7 +154,7 @@ func access(point string, ptr uintptr, write bool, what string) {
 		return
 	}
 	g := r.self()
-	if g == nil || g.abort {
+	if g == nil || g.abort || g.unchecked > 0 {
 		return
 	}
 	r.mu.Lock()
@@ -354,12 +357,33 @@ func (r *Run) park(g *G, point string, need *Mutex) {
 }
 
 // Yield is a scheduling point.
+// Unchecked runs f as a monitor: library methods called inside it are plain
+// calls - no scheduling points, no lock-discipline bookkeeping.
+func Unchecked(f func()) {
+	r := current()
+	if r == nil {
+		f()
+		return
+	}
+	g := r.self()
+	if g == nil {
+		f()
+		return
+	}
+	g.unchecked++
+	defer func() { g.unchecked-- }()
+	f()
+}
+
 func Yield(point string) {
 	r := current()
 	if r == nil {
 		return
 	}
 	g := r.self()
+	if g != nil && g.unchecked > 0 {
+		return
+	}
 	if g == nil {
 		r.mu.Lock()
 		r.UncontrolledY++
@@ -376,11 +400,22 @@ func Yield(point string) {
 type Pool struct {
 	mu   sync.Mutex
 	free []any
+	ep   uint64
 	New  func() any
+}
+
+// fresh empties a pool that still holds objects of an earlier run (a pool in a
+// package-level variable outlives a run; what it holds must not depend on what
+// the process ran before).
+func (p *Pool) fresh() {
+	if r := current(); r != nil && p.ep != r.epoch {
+		p.free, p.ep = nil, r.epoch
+	}
 }
 
 func (p *Pool) Get() any {
 	p.mu.Lock()
+	p.fresh()
 	if n := len(p.free); n > 0 {
 		x := p.free[n-1]
 		p.free = p.free[:n-1]
@@ -396,6 +431,7 @@ func (p *Pool) Get() any {
 
 func (p *Pool) Put(x any) {
 	p.mu.Lock()
+	p.fresh()
 	p.free = append(p.free, x)
 	p.mu.Unlock()
 }
@@ -428,6 +464,11 @@ func SetAsyncTimers(on bool) { asyncTimers.Store(on) }
 type Timer struct {
 	C     <-chan time.Time
 	inner *time.Timer
+	// AfterFunc timers: the function runs on a controlled goroutine
+	fn      func()
+	stopCh  chan struct{}
+	fired   bool
+	stopped bool
 }
 
 // NewTimer replaces time.NewTimer.
@@ -447,12 +488,56 @@ func NewTimer(d time.Duration) *Timer {
 	return t
 }
 
+// AfterFunc replaces time.AfterFunc: the function runs in a goroutine of its
+// own that the scheduler controls (the runtime's timer goroutine would not be).
+func AfterFunc(d time.Duration, f func()) *Timer {
+	if current() == nil {
+		return &Timer{inner: time.AfterFunc(d, f)}
+	}
+	t := &Timer{fn: f}
+	t.arm(d)
+	return t
+}
+
+func (t *Timer) arm(d time.Duration) {
+	stop := make(chan struct{})
+	t.stopCh, t.fired, t.stopped = stop, false, false
+	Go("time.AfterFunc", func() {
+		tm := time.NewTimer(d)
+		if Select("time.AfterFunc:wait", false, RecvCase(tm.C), RecvCase(stop)) == 0 {
+			if t.stopCh == stop && !t.stopped {
+				t.fired = true
+				t.fn()
+			}
+		} else {
+			tm.Stop()
+		}
+	})
+}
+
 // Stop is time.Timer.Stop; with the old semantics it reports false for a timer
 // that has fired, whether or not its tick was received, and leaves the tick in C.
-func (t *Timer) Stop() bool { return t.inner.Stop() }
+func (t *Timer) Stop() bool {
+	if t.fn != nil {
+		if t.fired || t.stopped {
+			return false
+		}
+		t.stopped = true
+		close(t.stopCh)
+		return true
+	}
+	return t.inner.Stop()
+}
 
 // Reset is time.Timer.Reset (a pending old-style tick stays in C).
-func (t *Timer) Reset(d time.Duration) bool { return t.inner.Reset(d) }
+func (t *Timer) Reset(d time.Duration) bool {
+	if t.fn != nil {
+		active := t.Stop()
+		t.arm(d)
+		return active
+	}
+	return t.inner.Reset(d)
+}
 
 var denseOn atomic.Bool
 
@@ -470,7 +555,7 @@ func YieldDense(point string) {
 		return
 	}
 	g := r.self()
-	if g == nil || g.abort {
+	if g == nil || g.abort || g.unchecked > 0 {
 		return
 	}
 	r.park(g, point, nil)
